@@ -213,7 +213,7 @@ func ZZC11History() {
 
 // ZZC11Docs: Document objects: Check/Len/NextLexeme in any order give what fresh objects give.
 func ZZC11Docs() {
-	texts := []string{`{"a":[1,2],"b":"x"}`, `[1,`, `  12  `, `"a"x`}
+	texts := []string{`{"a":[1,2],"b":"x"}`, `[1,`, `  12  `, `"a"x`, `{"a": 1, "b": }`}
 	t := texts[v.Choose(0, len(texts)-1)]
 	trailing := v.Choose(0, 1) == 1
 	mk := func() jlib.Document {
@@ -241,6 +241,22 @@ func ZZC11Docs() {
 	l1, e1 := d.Len()
 	l2, e2 := mk().Len()
 	v.Assert(l1 == l2 && (e1 == nil) == (e2 == nil), "C11/document-len-depends-on-history")
+	// Check and Len rewind the document: the lexeme stream read afterwards is that of a fresh document
+	g := mk()
+	for i := 0; i < 6; i++ {
+		x1, err1 := d.NextLexeme()
+		x2, err2 := g.NextLexeme()
+		ok1, c1, p1 := errSig(err1)
+		ok2, c2, p2 := errSig(err2)
+		same := ok1 == ok2 && c1 == c2 && p1 == p2
+		if err1 == nil && err2 == nil {
+			same = same && x1.Type() == x2.Type() && x1.Begin() == x2.Begin() && x1.End() == x2.End()
+		}
+		v.Assert(same, "C11/lexeme-stream-after-check-depends-on-history")
+		if err1 != nil || err2 != nil {
+			break
+		}
+	}
 	v.Observe("text", t)
 }
 
